@@ -45,28 +45,11 @@ impl<'a, T: ColumnProvider> ExpressionExecutionEngine<'a, T> {
             }
             ExpressionTree::Wildcard => Err(EvaluationError::UndefinedOperation),
             ExpressionTree::Compare { left, right, operator } => {
-                let mut left_value = self.evaluate(left)?;
-                let mut right_value = self.evaluate(right)?;
-
-                match (&left_value, &right_value) {
-                    (Value::Timestamp(_), Value::String(value)) => {
-                        right_value = ValueType::Timestamp.parse(&value).ok_or(EvaluationError::FailedToParseTimestamp)?;
-                    }
-                    (Value::String(value), Value::Timestamp(_)) => {
-                        left_value = ValueType::Timestamp.parse(&value).ok_or(EvaluationError::FailedToParseTimestamp)?;
-                    }
-                    _ => {}
-                }
+                let left_value = self.evaluate(left)?;
+                let right_value = self.evaluate(right)?;
+                let (left_value, right_value) = comparable_operands(left_value, right_value)?;
 
                 if !left_value.is_null() && !right_value.is_null() {
-                    match (left_value.value_type(), right_value.value_type()) {
-                        (Some(ValueType::Int), Some(ValueType::Float)) | (Some(ValueType::Float), Some(ValueType::Int)) => {}
-                        (Some(left_type), Some(right_type)) if left_type != right_type => {
-                            return Err(EvaluationError::TypeError(left_type, right_type));
-                        }
-                        _ => {}
-                    }
-
                     let ordering = compare_values(&left_value, &right_value);
 
                     match operator {
@@ -191,8 +174,12 @@ impl<'a, T: ColumnProvider> ExpressionExecutionEngine<'a, T> {
                     let expected_value = self.evaluate(value)?;
                     if expected_value.is_null() {
                         any_null = true;
-                    } else if compare_values(&executed_operand, &expected_value) == Ordering::Equal {
-                        return Ok(Value::Bool(!is_not));
+                    } else if !executed_operand.is_null() {
+                        // Each member is compared like `=` does (timestamp text is parsed, other types are a type error)
+                        let (operand, expected_value) = comparable_operands(executed_operand.clone(), expected_value)?;
+                        if compare_values(&operand, &expected_value) == Ordering::Equal {
+                            return Ok(Value::Bool(!is_not));
+                        }
                     }
                 }
 
@@ -668,6 +655,32 @@ impl std::fmt::Display for EvaluationError {
 
 
 // The comparison used by =, !=, <, <=, >, >= and IN: numbers compare by numeric value
+// Prepares two operands for a comparison: text compared with a timestamp is parsed as a timestamp, and two non-NULL values
+// must then be of the same type (an INT may be compared with a REAL)
+fn comparable_operands(mut left_value: Value, mut right_value: Value) -> Result<(Value, Value), EvaluationError> {
+    match (&left_value, &right_value) {
+        (Value::Timestamp(_), Value::String(value)) => {
+            right_value = ValueType::Timestamp.parse(&value).ok_or(EvaluationError::FailedToParseTimestamp)?;
+        }
+        (Value::String(value), Value::Timestamp(_)) => {
+            left_value = ValueType::Timestamp.parse(&value).ok_or(EvaluationError::FailedToParseTimestamp)?;
+        }
+        _ => {}
+    }
+
+    if !left_value.is_null() && !right_value.is_null() {
+        match (left_value.value_type(), right_value.value_type()) {
+            (Some(ValueType::Int), Some(ValueType::Float)) | (Some(ValueType::Float), Some(ValueType::Int)) => {}
+            (Some(left_type), Some(right_type)) if left_type != right_type => {
+                return Err(EvaluationError::TypeError(left_type, right_type));
+            }
+            _ => {}
+        }
+    }
+
+    Ok((left_value, right_value))
+}
+
 fn compare_values(left: &Value, right: &Value) -> Ordering {
     match (left, right) {
         (Value::Int(x), Value::Float(y)) => compare_int_float(*x, y.0),
